@@ -7,12 +7,13 @@ mod lrx;
 mod c01;
 mod c03;
 mod c16;
+mod c17;
 mod c19;
 
 use frame::{Check, Tier};
 
 fn registry() -> Vec<Box<dyn Check>> {
-    vec![Box::new(c01::C01), Box::new(c03::C03), Box::new(c16::C16), Box::new(c19::C19)]
+    vec![Box::new(c01::C01), Box::new(c03::C03), Box::new(c16::C16), Box::new(c17::C17), Box::new(c19::C19)]
 }
 
 fn find(id: &str) -> Box<dyn Check> {
@@ -55,6 +56,14 @@ fn main() {
             let seed = v["seed"].as_u64().unwrap_or(1);
             let idx = v["case"].as_u64().unwrap_or(0);
             std::process::exit(frame::driver_main(c.as_ref(), tier, seed, Some(idx)));
+        }
+        "probe17" => {
+            c17::probe_main(args[2].parse().unwrap(), args[3].parse().unwrap());
+        }
+        "dumpgrm17" => {
+            let mut rng = rng::Rng::derive(args[2].parse().unwrap(), "C17", args[3].parse().unwrap(), 0);
+            let g = c17::gen_c17(&mut rng);
+            println!("{}\ncyclic={} productive={:?}", g.render(), refs::has_derivation_cycle(&g), refs::productive(&g));
         }
         "dumpgrm" => {
             let mut rng = rng::Rng::derive(args[3].parse().unwrap(), &args[2], args[4].parse().unwrap(), 0);
